@@ -51,9 +51,12 @@ SPEC = dict(
              "with exactly parsed JSON batch literals and integers below 10^6 (via encoding_invariant_of_sim: values the four rule coercions "
              "and the two key renderings cannot tell apart). The model is tied to the code by pushing every variant of every generated trace "
              "through the real ingestion handlers and samplers and comparing each decoded Go value, decision, rate, reason and key with the "
-             "model; a monitor compares the real outcomes of variants carrying the same logical trace.",
+             "model; a monitor compares the real outcomes of variants carrying the same logical trace and "
+             "attributes a difference to the code site where it shows (the rule that matched in one variant only and how its conditions read the value; "
+             "the ordinary-field part or the root-field part of the key) and, only when the fields read there carry exactly one such class, to a class of encodings.",
         note="Trusted: Lean kernel; the differential check (sampled); Go's formatting / parsing taken as graphs from the running code. "
-             "Known divergences recorded as findings (five signatures, one per wire-encoding class).",
+             "Known divergences recorded as findings: one signature per (wire-encoding class, code site) - compare(), the typed conversions, "
+             "convertToString, AddAsString (ordinary key field), %v of root. key fields - so a new divergence of a known class at another site is still a violation.",
         technique="Lean 4 proof (permutation invariance through the all/any specifications; relational lifting of value indistinguishability "
                   "through extraction, both rule scopes and the key builder; refutation by witness) + model/implementation correspondence check",
     ),
